@@ -4,9 +4,10 @@ set -e
 cd /verif
 b="$1"
 git merge --no-commit --no-ff "$b" >/dev/null 2>&1 || true
-for f in MANIFEST.json lean/JjModel.lean lean/Driver/Registry.lean; do
+for f in MANIFEST.json lean/JjModel.lean lean/Driver/Registry.lean tools/translate.py; do
   git checkout --ours -- "$f" 2>/dev/null || true
 done
+python3 tools/merge_kf.py "$b"
 # evidence files: take theirs (run results); they are rewritten by every check anyway
 for f in $(git diff --name-only --diff-filter=U | grep '^evidence/' || true); do git checkout --theirs -- "$f"; done
 python3 tools/gen_registry.py
